@@ -8,6 +8,7 @@ From Coq Require Import List ZArith Bool.
 Import ListNotations.
 From JR Require Import Keepalive Keepalive_Proofs.
 From JRGen Require Extracted.
+From JR Require Skeletons.
 Open Scope Z_scope.
 
 (* the read deadline is re-armed in exactly three places, all triggered by the peer (a frame was read, a ping/pong
@@ -49,6 +50,15 @@ Example c17_ex : fired (krun 100 {| now := 0; deadline := 100; fired := false |}
               /\ fired (krun 100 {| now := 0; deadline := 100; fired := false |} [Tick 21; Reset; Tick 60; Tick 41]) = true.
 Proof. split; reflexivity. Qed.
 
+(* the functions this property's model is an abstraction of still have the control / locking / shared-state skeleton the
+   model was written against (Skeletons.v, by hand; Extracted.v, regenerated from /repo) *)
+Theorem c17_code_skeletons :
+  JRGen.Extracted.effects_setupPings = JR.Skeletons.setupPings /\
+  JRGen.Extracted.effects_nextMessage = JR.Skeletons.nextMessage /\
+  JRGen.Extracted.effects_handleWsConn = JR.Skeletons.handleWsConn.
+Proof. repeat split; reflexivity. Qed.
+
+Print Assumptions c17_code_skeletons.
 Print Assumptions c17_source_facts.
 Print Assumptions c17_healthy_never_expires.
 Print Assumptions c17_silent_detected.
